@@ -67,7 +67,7 @@ func init() {
 		Cases: func(seed uint64, tier string) []Case {
 			ns, nt, nb := 700, 60, 20
 			if !quick(tier) {
-				ns, nt, nb = 40000, 1500, 1200
+				ns, nt, nb = 15000, 800, 300
 			}
 			var cs []Case
 			for i := 0; i < ns; i++ {
